@@ -113,7 +113,7 @@ func drawC09(src *vs.Src) *c09Params {
 		p.Policy = 1 + src.Intn(5)
 	default:
 		p.Mode = "flood"
-		p.Flood = pickStr(src, []string{"handshake", "empty-app", "warning", "hello-request", "big-fragments", "many-seqs", "tiny-fragments", "coalesced-oversize", "length-conflict", "old-epoch"})
+		p.Flood = pickStr(src, []string{"handshake", "empty-app", "warning", "hello-request", "big-fragments", "many-seqs", "tiny-fragments", "coalesced-oversize", "length-conflict", "old-epoch", "runts"})
 		p.N = 20 + src.Intn(300)
 		if src.Bool(1, 2) {
 			// the flood arrives in the middle of the handshake, after Step honest messages (that is when a
@@ -187,6 +187,9 @@ const (
 	c09BoundRaw    = 2*c09MaxRecord + 1024
 	c09BoundDHand  = 65536 + 12 + 16384 + 2048 + 13
 	c09BoundDFrags = 256
+	// call-stack depth at which a datagram is read: a handshake reads from about thirty frames down; a fixed bound
+	// well above that and well below the length of a flood
+	c09BoundDepth = 120
 )
 
 func (c09) Run(c *Case, src *vs.Src) *Result {
@@ -402,6 +405,9 @@ func (c09) Run(c *Case, src *vs.Src) *Result {
 			r.Violate("memory", sigp+" memory fragments "+p.Mode+" "+p.Flood, "pending fragment state reached %d buffers / %d bytes", maxFragN, maxFragB)
 		}
 	}
+	if h.RP != nil && h.RP.MaxDepth > c09BoundDepth {
+		r.Violate("memory", sigp+" stack-depth "+p.Mode+" "+p.Flood, "the endpoint read a datagram from a call stack %d frames deep (bound %d): its stack grows with the number of datagrams it ignores", h.RP.MaxDepth, c09BoundDepth)
+	}
 	if p.Stack == TLCP && p.Mode == "flood" && (p.Flood == "empty-app" || p.Flood == "warning") && realErr == nil && p.N > 16 && peerNote == "" {
 		// stream stack: records that neither advance the handshake nor deliver data are skipped by recursion,
 		// so more than 16 in a row must be refused (on the datagram stack they are skipped in a loop and each
@@ -484,6 +490,14 @@ func c09Flood(pr *peer.Peer, p *c09Params, sample func()) {
 				if err == nil && i%8 == 7 {
 					err = pr.SendApp([]byte("data behind old-epoch records"))
 				}
+			} else {
+				err = pr.SendAlert(1, 90)
+			}
+		case "runts":
+			// datagrams shorter than a record header (stream stack: single bytes of a header that never completes
+			// are not a flood; a warning alert stands in)
+			if pr.DTLS {
+				err = pr.T.Send(make([]byte, 1+i%12))
 			} else {
 				err = pr.SendAlert(1, 90)
 			}
